@@ -5,7 +5,7 @@ import typing
 from nvsa import cast
 from nvsa.report import AnalysisError
 
-from ._c14_common import (LITERAL_BITS, alpha_print, flat, is_int, is_min, name_width, res, return_type, then_returns, times8, type_bytes,
+from ._c14_common import (rule_f16_special, rule_f16_pack_order, LITERAL_BITS, alpha_print, flat, is_int, is_min, name_width, res, return_type, then_returns, times8, type_bytes,
                           upper_bound, zero_fill_guard_ok, early_exit_before)
 
 COPY = "nunavutCopyBits"
@@ -566,4 +566,8 @@ def analyse(ast: dict, text: str, point) -> typing.Tuple[typing.List[dict], typi
     for n in ("nunavutFloat16Pack", "nunavutFloat16Unpack"):
         if n in fns:
             prints[n] = alpha_print(fns[n])
+    if "nunavutFloat16Unpack" in fns:
+        out += rule_f16_special(fns["nunavutFloat16Unpack"], "nunavutFloat16Unpack")
+    if "nunavutFloat16Pack" in fns:
+        out += rule_f16_pack_order(fns["nunavutFloat16Pack"], "nunavutFloat16Pack")
     return out, prints, len(fns)
